@@ -46,7 +46,7 @@ Proof.
   - intros t out [H _]. exact H.
   - change (T QL (list_main o) (fun _ => True)). unfold list_main.
     eapply (T_bind QL) with (Q' := fun _ => True); [|intros; apply (T_ret QL); exact I].
-    apply (safe_select_trash_dirs QL QL_scan (fun _ ev => list_handle o tt ev) (fun _ => True) (fun _ => True)); auto.
+    apply (safe_select_trash_dirs QL QL_scan (fun _ ev => list_handle o tt ev) (fun _ => True) (fun _ => True)); try apply select_events_true; auto.
     intros s ev _ _. destruct s. apply QL_list_handle.
 Qed.
 
